@@ -46,7 +46,7 @@ fn well_formed(r: Option<(usize, usize)>, n: usize) -> bool {
 
 def harness(name, fns, desc, body):
     return '''
-//# kind=complete tier=quick props=C08 fns="%s" | %s
+//# kind=complete tier=quick props=C08,C07 fns="%s" | %s
 #[kani::proof]
 #[kani::unwind(2)]
 fn %s() {
